@@ -11,7 +11,7 @@ use std::ffi::c_ulong;
 pub const INFO: CheckInfo = CheckInfo {
     prop: "C02",
     level: "model_checking",
-    rule: "every byte string of the decoder corpus (R4 streams in raw/zlib/gzip wrappers x {intact, trailing garbage, every truncation, every single-bit flip, byte substitutions}) and every byte string of length <= 2 (3 thorough), under every inflateInit2 mode, executed through: streaming inflate under schedules {one call, 1-byte input, 1-byte output, 0-byte output then ample, first call exactly 14/15/16 input bytes x 259/260/261 output bytes (fast-path entry thresholds), and for intact streams of <= 700 output bytes every position of the first output-room end and every uniform room 4..300}; uncompress / uncompress2 with destination sizes {0,1,exact-1,exact,ample}; zlib_rs::decompress_slice and Inflate::decompress; inflateGetHeader capture with capacities {NULL,0,1,len}. Every buffer handed to the library lies in a guard-paged arena, once with its END against a PROT_NONE page and once with its START right after one; stream state comes from a guard-paged garbage-filled allocator. Oracle: no signal (attributed to the case by the explorer), no panic, documented return code, cursors inside the buffers, totals consistent, bounded number of calls, progress on every call with input and room (bytes or H2 state change). distinct_nontrivial = distinct (verdict, output, consumed) outcomes.",
+    rule: "every byte string of the decoder corpus (R4 streams in raw/zlib/gzip wrappers x {intact, trailing garbage, every truncation, every single-bit flip, byte substitutions}) and every byte string of length <= 2 (3 thorough), under every inflateInit2 mode, executed through: streaming inflate under schedules {one call, 1-byte input, 1-byte output, 0-byte output then ample, first call exactly 14/15/16 input bytes x 259/260/261 output bytes (fast-path entry thresholds), and for intact streams of <= 700 output bytes every position of the first output-room end and every uniform room 4..300}; uncompress / uncompress2 with destination sizes {0,1,exact-1,exact,ample}; zlib_rs::decompress_slice and Inflate::decompress; inflateGetHeader capture with capacities {NULL,0,1,len}; inflateBack (windowBits 8/9/10/15, window in both placements, one input slice and 1-byte slices) on every raw string. Every buffer handed to the library lies in a guard-paged arena, once with its END against a PROT_NONE page and once with its START right after one; stream state comes from a guard-paged garbage-filled allocator. Oracle: no signal (attributed to the case by the explorer), no panic, documented return code, cursors inside the buffers, totals consistent, bounded number of calls, progress on every call with input and room (bytes or H2 state change). distinct_nontrivial = distinct (verdict, output, consumed) outcomes.",
     assumptions: &["over-reads/over-writes smaller than the allocator's alignment slack inside one allocation are not visible to guard pages (the ASan pass of the thorough tier covers them when nightly is present)", "strings outside the corpus / longer than 3 bytes with > 1 fault are not covered"],
     bound_quick: "corpus programs <= 3 tokens, every mutation under end-placement one-shot; every 3rd mutation under the other schedules/placements; strings <= 2 bytes",
     bound_thorough: "every mutation under every schedule and placement; strings <= 3 bytes",
@@ -257,6 +257,36 @@ pub fn run(ctx: &mut Ctx) {
             },
         );
     });
+    // inflateBack on every raw string of the corpus (the property names it): safety only - no signal or panic,
+    // documented status, callbacks handed memory inside the caller's window (the window and the input slices lie
+    // against guard pages) - with the input in one slice and in 1-byte slices; C19 compares the results
+    {
+        let benv = crate::checks::c19::BackEnv { win: Arena::new(1 << 15), ain: Arena::new(1 << 20) };
+        zfam::for_each(ctx, &corp, quick, false, |ctx, it| {
+            if it.kind != WrapKind::Raw || (quick && it.mut_idx % 3 != 0) {
+                return;
+            }
+            ctx.case(
+                "inflate-back",
+                || format!("{} inflateBack windowBits 8/9/10/15, one slice and 1-byte slices", it.desc()),
+                |c| {
+                    for wbits in [8, 9, 10, 15] {
+                        for at_end in [true, false] {
+                            c.exec();
+                            crate::checks::c19::run_back::<Rs>(wbits, it.bytes, &[], false, usize::MAX, &benv, at_end).map_err(|e| format!("windowBits {wbits}: {e}"))?;
+                        }
+                        if it.bytes.len() <= 300 {
+                            c.exec();
+                            let ones = vec![1usize; it.bytes.len()];
+                            crate::checks::c19::run_back::<Rs>(wbits, it.bytes, &ones, true, usize::MAX, &benv, true).map_err(|e| format!("windowBits {wbits}, 1-byte slices: {e}"))?;
+                        }
+                    }
+                    c.validated();
+                    Ok(())
+                },
+            );
+        });
+    }
     let n = if quick { 2 } else { 3 };
     let modes: &[i32] = if quick { &[-15, 15, 31, 47] } else { &[-15, -8, 15, 8, 0, 31, 24, 47, 32] };
     for s in zfam::short_strings(n) {
